@@ -148,7 +148,7 @@ class C10(Check):
                'rxsci/data/batch.py', 'rxsci/data/sort.py']
     REQUIRED_TAGS = ['first', 'last', 'take', 'distinct', 'duc', 'lag', 'pad_start', 'pad_end', 'start_with', 'batch', 'sort',
                      'plain', 'mux', 'group', 'roll', 'split', 'scale', 'numpy-items', 'negative-values', 'empty', 'has-None', 'len-multiple-of-n', 'numpy-typed-parameters', 'two-store-sections'] + ['padding-as-' + k for k in ('tuple', 'range', 'deque', 'keys', 'nparray')] + PRELUDE_TAGS
-    REQUIRED_OBSERVED = ['sequences_compared']
+    REQUIRED_OBSERVED = ['sequences_compared', 'triples_of_staggered_subscriptions']
 
     def generate(self, rng, tier, shard, nshards):
         def npp(cases):
@@ -267,6 +267,13 @@ class C10(Check):
             out.observed['sequences_compared'] += 1
             if norm(s.out) != norm(want):
                 out.fail('differs-from-list-definition', op=node, mode=mode, seq=seq, want=want, got=s.out)
+            elif len(seq) <= 60 and not prelude:
+                # three streams with staggered lifetimes through the SAME operator object (a long-lived stream open, a second
+                # one starting and ending meanwhile, a third one starting before the first ends): each owes the list definition
+                wrap = (lambda src: src.pipe(op)) if mode == 'plain' else (lambda src: src.pipe(rs.state.with_memory_store([op])))
+                t = progs.staggered_subscriptions(wrap, seq, out, name, lambda xs: norm(list(xs)))
+                if t is not None and t != norm(want):
+                    out.fail('differs-from-list-definition-with-staggered-streams-through-one-operator', op=node, mode=mode, seq=seq, want=want)
             return out
 
         if mode in ('roll', 'split'):
